@@ -37,12 +37,17 @@ func (v *inputFieldDefaultInjectionVisitor) EnterDocument(operation, definition 
 func (v *inputFieldDefaultInjectionVisitor) EnterVariableDefinition(ref int) {
 	v.variableName = v.operation.VariableDefinitionNameString(ref)
 
-	variableVal, _, _, err := jsonparser.Get(v.operation.Input.Variables, v.variableName)
+	variableVal, variableValType, _, err := jsonparser.Get(v.operation.Input.Variables, v.variableName)
 	if errors.Is(err, jsonparser.KeyPathNotFoundError) {
 		return
 	}
 	if err != nil {
 		v.StopWithInternalErr(err)
+		return
+	}
+	if !isObjectListOrNull(variableValType) {
+		// a scalar value has no fields to default; if the type expects an input object
+		// or list, the mismatch is reported by package variablesvalidation
 		return
 	}
 
@@ -82,12 +87,17 @@ func (v *inputFieldDefaultInjectionVisitor) recursiveInjectInputFields(inputObje
 		isTypeScalarOrEnum := v.isScalarTypeOrExtension(valDef.Type, v.definition)
 		hasDefault := valDef.DefaultValue.IsDefined
 
-		varVal, _, _, err := jsonparser.Get(varValue, fieldName)
+		varVal, varValType, _, err := jsonparser.Get(varValue, fieldName)
 		if err != nil && !errors.Is(err, jsonparser.KeyPathNotFoundError) {
 			v.StopWithInternalErr(err)
 			return nil, false, err
 		}
 		existsInVal := !errors.Is(err, jsonparser.KeyPathNotFoundError)
+
+		if !isTypeScalarOrEnum && existsInVal && !isObjectListOrNull(varValType) {
+			// mismatching types are handled by variablesvalidation package
+			continue
+		}
 
 		if !isTypeScalarOrEnum {
 			var valToUse []byte
@@ -134,6 +144,10 @@ func (v *inputFieldDefaultInjectionVisitor) recursiveInjectInputFields(inputObje
 		hasDoneAnyReplacements = true
 	}
 	return finalVal, hasDoneAnyReplacements, nil
+}
+
+func isObjectListOrNull(valueType jsonparser.ValueType) bool {
+	return valueType == jsonparser.Object || valueType == jsonparser.Array || valueType == jsonparser.Null
 }
 
 func (v *inputFieldDefaultInjectionVisitor) isScalarTypeOrExtension(typeRef int, typeDoc *ast.Document) bool {
@@ -184,7 +198,7 @@ func (v *inputFieldDefaultInjectionVisitor) processObjectOrListInput(fieldType i
 			return nil, false, err
 
 		}
-	case !fieldIsList && !valIsList:
+	case !fieldIsList && valType == jsonparser.Object:
 		finalVal, replaced, err = v.recursiveInjectInputFields(node.Ref, defaultValue)
 		if err != nil {
 			return nil, false, err
